@@ -161,3 +161,17 @@ Proof.
   - vm_compute. intros H. repeat (destruct H as [H|H]; [discriminate|]). exact H.
   - vm_compute. auto 10.
 Qed.
+
+(* the contract is needed: a pattern with an empty match at position 0 (e.g. "(?=M)" on MAAK gives
+   sites 0,0,4) duplicates site 0, and the code then clips only from start index 0 — the clipped form
+   AAK allowed by Digest_spec is not produced with mc = 0 *)
+Example C17_contract_needed :
+  ~ In [65;65;75] (dg_cleave Z dg_isM [77;65;65;75] [0;0;4]%nat 0 1 50 false true)
+  /\ Digest_spec Z dg_isM [77;65;65;75] [0;0;4]%nat 0 1 50 false true [65;65;75].
+Proof.
+  split.
+  - vm_compute. intros H. repeat (destruct H as [H|H]; [discriminate|]). exact H.
+  - exists 0%nat, 4%nat. split.
+    + unfold enzymatic. simpl. repeat split; auto; lia.
+    + right; left. split; [reflexivity|]. exists 77. simpl. repeat split; lia.
+Qed.
